@@ -34,7 +34,7 @@ mirror new NPIX NMODES ROWS | assign V | alias H | edit H I X | flatten | random
        | segset NSEG ID P T TL            -> ok      (`setSegment`: set_segment_actuators on a mirror of NSEG segments)
        | segget NSEG ID                   -> ok P T TL (`getSegment`: get_segment_actuators)
        | phase WL                         -> ok TURNS hit|miss   (`readPhase`: phase_for(WL) = 2π·TURNS; a read like opd)
-       | forward|backward WL AMPS TURNS   -> ok AMPS' TURNS' hit|miss  (`forward`/`backward` on the field AMPS·exp(2πi·TURNS); a read like opd)
+       | forward|backward WL AMPS TURNS   -> ok AMPS' TURNS' POWER hit|miss  (`forward`/`backward` on the field AMPS·exp(2πi·TURNS); a read like opd)
        | ideal                            -> ok SURFACE OPD | err spec-diverged
                                              (the cache-free specification, stepped alongside by `Spec.step`: its read and its opd;
                                               `err` when its state is not `spec` of the cached mirror's state)
@@ -247,7 +247,7 @@ def mirrorStep (st : St) : List String → St × String
           let hit := decide (mir.cached = some (acts mir))
           let r := if dir == "forward" then Mirror.forward wl e mir else Mirror.backward wl e mir
           ({ st with mirror := some r.1, ideal := st.ideal.map fun s => (s.step .read).1 },
-            s!"ok {showVec (r.2.map (·.amp))} {showVec (r.2.map (·.turns))} {if hit then "hit" else "miss"}")
+            s!"ok {showVec (r.2.map (·.amp))} {showVec (r.2.map (·.turns))} {showC (power (fun a => ⟨CRat.normSq a, 0⟩) r.2)} {if hit then "hit" else "miss"}")
         | _, _, _ => (st, "bad-op")
       | _ => (st, "bad-op")
 
